@@ -3,6 +3,8 @@ macro_rules! registry {
     ($action:ident, $id:expr, $ctx:expr, $path:expr) => {
         match $id {
             "C01" => dispatch!($action, props::c01::C01, $ctx, $path),
+            "C03" => dispatch!($action, props::c03::C03, $ctx, $path),
+            "C21" => dispatch!($action, props::c21::C21, $ctx, $path),
             _ => {
                 eprintln!("unknown property {}", $id);
                 2
